@@ -758,6 +758,28 @@ func c17Check(ctx *Ctx, res *CaseResult, dir string, p *c17Payload, regen *Rand)
 			} else {
 				rs = GenRuleSpec(regen, bvs, pkg, "option", Pick(regen, optionRuleKinds))
 			}
+			// a follow-up on the option the previous rule reshaped: rules interact through
+			// what the previous one left behind (index arguments, envelopes, shared slices)
+			if len(p.Rules) > 0 && regen.Chance(1, 3) {
+				prev := p.Rules[len(p.Rules)-1]
+				if prev.Scope == "option" && (prev.Kind == "map_to_index" || prev.Kind == "array_to_append" || prev.Kind == "disjunction_as_options" || prev.Kind == "struct_fields_as_arguments" || prev.Kind == "duplicate") {
+					for _, bv := range bvs {
+						if bv.Pkg != p.Pkgs[len(p.Pkgs)-1] {
+							continue
+						}
+						for _, ov := range bv.Options {
+							if ov.NArgs >= 2 || (prev.Kind != "map_to_index" && ov.NArgs >= 1 && strings.Contains(strings.ToLower(prev.SelA+strings.Join(prev.SelOpts, ",")), strings.ToLower(ov.Name))) {
+								var names []string
+								for k := 0; k < ov.NArgs; k++ {
+									names = append(names, fmt.Sprintf("renamed%d", k))
+								}
+								pkg = bv.Pkg
+								rs = RuleSpec{Scope: "option", Kind: Pick(regen, []string{"rename_arguments", "rename_arguments", "duplicate", "rename"}), SelKind: "by_builder", SelA: bv.Name + "." + ov.Name, Names: names, As: ov.Name + "Again"}
+							}
+						}
+					}
+				}
+			}
 			// a builder that got a factory is worth copying: "duplicate yields an
 			// identical copy (defaults and factories included)"
 			for _, bv := range bvs {
